@@ -1,7 +1,27 @@
-(* C18/Run.v -- entry point of the correspondence check. *)
+(* C18/Run.v -- entry point of the correspondence check.
+   Beside the hand model, [run] evaluates the range-text branch of get_attr_origin TRANSLATED from the current
+   source (gen/C18_Translated.v, T_range_origin_text with _coord_sort_key) on the recorded origins of every ranged
+   attribute of every object the case produces: when it gives the model's range_text everywhere the line is the
+   model's observation, else (99 observation).  When the source has left the translator's subset
+   (translation_available = false, the proof step is already broken) the hand model is compared alone. *)
 From Coq Require Import ZArith List Bool.
 From AK Require Export Common.Sx Common.Err C18.Base C18.Model C18.Session.
+From AK Require Import gen.C18_Translated.
 Import ListNotations.
+
+Definition range_agree_attr (a : value * origin) : bool :=
+  match snd a with
+  | ORange d =>
+      match T_range_origin_text 0 (map (fun kv => coord_text (fst (snd kv)) (snd (snd kv))) d) [] with
+      | Ok t => str_eqb t (range_text d)
+      | Err _ => false
+      end
+  | _ => true
+  end.
+Definition obj_agree (o : option obj) : bool :=
+  match o with Some o => forallb range_agree_attr (o_attrs o) | None => true end.
+Definition with_translated (items : list (option obj)) (m : sx) : sx :=
+  if translation_available then (if forallb obj_agree items then m else SL [SZ 99; m]) else m.
 
 (* one call of read_table on a generated worksheet, then get_attr_origin on every
    produced object for every attribute, without key and with every key of [qkeys]
@@ -126,27 +146,31 @@ Definition run (c : case) : sx :=
       (* the module-level iter_table = XlsTableReader(rules).iter_table unpacked
          (LemmasMulti.read_table_one: iter_table_fn cf sh = read_table cf sh) *)
       let (items, e) := iter_table_fn (mkConfig rules nid stop ladder) rows in
-      SL [ SL (map (fun it => match it with
+      with_translated items
+      (SL [ SL (map (fun it => match it with
                               | None => SL [SZ 0]
                               | Some o => SZ (hash_sx (sx_obj_ws xlgen wst qkeys o) 1)
                               end) items);
-           sx_option (fun e => SZ (err_code e)) e ]
+           sx_option (fun e => SZ (err_code e)) e ])
   | ReadM wst rows objs stop ladder qkeys muts =>
       (* = (number of tuples, run_session (multi_ops ...)): LemmasSession.multi_final_spec *)
       let (n, st) := multi_final (mkMConfig (map snd objs) stop ladder) rows qkeys muts in
-      SL (SZ (Z.of_nat n) ::
+      with_translated (flat_map rd_items st)
+      (SL (SZ (Z.of_nat n) ::
           map (fun rd => SL [ SL (map (fun p => match snd p with
                                                 | None => SL [SZ 0]
                                                 | Some o => SZ (hash_sx (sx_obj_ws (fst p) wst qkeys o) 1)
                                                 end)
                                       (with_names (map fst objs) [] (rd_items rd) (length (rd_items rd))));
                               sx_option (fun e => SZ (err_code e)) (rd_err rd) ])
-              st)
+              st))
   | Session ops =>
-      SL (map (fun rd => SL [ SL (map (fun it => match it with
+      let st := run_session ops in
+      with_translated (flat_map rd_items st)
+      (SL (map (fun rd => SL [ SL (map (fun it => match it with
                                                  | None => SL [SZ 0]
                                                  | Some o => SZ (hash_sx (sx_obj (rd_qkeys rd) o) 1)
                                                  end) (rd_items rd));
                               sx_option (fun e => SZ (err_code e)) (rd_err rd) ])
-              (run_session ops))
+              st))
   end.
